@@ -165,6 +165,8 @@ def run_task(task: dict) -> dict:
                 res["solver_time"] += ob.time
                 bump(res["by_backend"], ob.backend)
                 if ob.must_fail:
+                    if ob.status == "skipped":
+                        continue
                     if ob.status == "refuted":
                         res["mustfail_ok"] += 1
                         bump(res["by_status"], "must-fail refuted")
